@@ -468,6 +468,12 @@ class SReal:
     def __init__(self, v):
         self.v = v
 
+    def __deepcopy__(self, memo):      # immutable
+        return self
+
+    def __copy__(self):
+        return self
+
     @staticmethod
     def of(o):
         if isinstance(o, SReal):
@@ -775,6 +781,12 @@ class SComplex:
         self.re = SReal.of(re)
         self.im = SReal.of(im)
 
+    def __deepcopy__(self, memo):      # immutable
+        return self
+
+    def __copy__(self):
+        return self
+
     @staticmethod
     def of(o):
         if isinstance(o, SComplex):
@@ -883,12 +895,19 @@ class Rad:
 
     def __neg__(self): return Rad(-self.deg)
 
+    @staticmethod
+    def _wrap(val):
+        """val: SReal in radians. A value that no longer contains pi is a plain number (e.g. degrees after * 180 / pi)."""
+        v = val.v
+        has_pi = any(mon[0] for mon in v.numer.to_dict()) or any(mon[0] for mon in v.denom.to_dict())
+        return Rad(val / DEG()) if has_pi else val
+
     def __mul__(self, o):
         if isinstance(o, (complex, np.complexfloating)):
             if o.real != 0:
                 raise Abort("Rad * complex with real part")
             return SComplex(0.0, self.deg * DEG() * float(o.imag))
-        return Rad(self.deg * o)
+        return Rad._wrap(self.value() * o)
     __rmul__ = __mul__
 
     def __add__(self, o):
@@ -901,7 +920,7 @@ class Rad:
     def __rsub__(self, o):
         return Rad((o.deg if isinstance(o, Rad) else SReal.of(o) / DEG()) - self.deg)
 
-    def __truediv__(self, o): return Rad(self.deg / o)
+    def __truediv__(self, o): return Rad._wrap(self.value() / o)
 
     def value(self):
         return self.deg * DEG()
